@@ -124,7 +124,7 @@ def handle (toks : List String) : String :=
       -- insist that no return value depends on them
       let a := runOps limit ops (St.new src []) []
       let b := runOps limit ops (St.new src (List.replicate ops.length true)) []
-      if a == b then ";".intercalate a else "capacity-dependent " ++ ";".intercalate a ++ " | " ++ ";".intercalate b
+      if a == b then (let r := ";".intercalate a; if r == "-" then "-;" else r) else "capacity-dependent " ++ ";".intercalate a ++ " | " ++ ";".intercalate b
     | _, _, _ => "bad-op"
   | _ => "bad-op"
 
